@@ -1,7 +1,7 @@
 /-
 Model of skrifa/src/outline/glyf/hint/round.rs (`RoundState::round`) and of
 `Engine::super_round` (hint/engine/graphics.rs), in the overflow-checked profile:
-plain `i32` arithmetic traps (`none`).
+plain `i32` arithmetic traps (`none`), `wrapping_*` wraps.
 Mode numbering (driver protocol): 0 Grid, 1 HalfGrid, 2 DoubleGrid, 3 DownToGrid, 4 UpToGrid,
 5 Off, 6 Super, 7 Super45.
 -/
@@ -12,74 +12,83 @@ open FontVerif FontVerif.HintMath
 def imax (a b : Int) : Int := if a ≥ b then a else b
 def imin (a b : Int) : Int := if a ≤ b then a else b
 
-/-- `RoundState::round(distance)` with `self = {mode, threshold, phase, period}`. -/
+/-- `x.wrapping_neg()`. -/
+def wneg (x : Int) : Int := wrapI32 (-x)
+
+/-- `RoundState::round(distance)` with `self = {mode, threshold, phase, period}` (after /repo commit
+fafa2bb: the arithmetic on the distance wraps; `threshold - phase`, `-period`, `-phase`,
+`/ period`, `* period` are still plain operators and trap). -/
 def round (mode thr ph per d : Int) : Option Int :=
   if mode = 1 then
-    -- HalfGrid: (floor(d) + 32).max(0)  /  (-(floor(-d) + 32)).min(0)
-    if d ≥ 0 then (chk (floor d + 32)).map (imax · 0)
-    else (chk (-d)).bind fun nd => (chk (floor nd + 32)).bind fun v => (chk (-v)).map (imin · 0)
+    -- HalfGrid: floor(d).wrapping_add(32).max(0) / floor(d.wrapping_neg()).wrapping_add(32).wrapping_neg().min(0)
+    if d ≥ 0 then some (imax (wrapI32 (floor d + 32)) 0)
+    else some (imin (wneg (wrapI32 (floor (wneg d) + 32))) 0)
   else if mode = 0 then
-    -- Grid: round(d).max(0)  /  (-round(-d)).min(0)
-    if d ≥ 0 then (HintMath.round d).map (imax · 0)
-    else (chk (-d)).bind fun nd => (HintMath.round nd).bind fun v => (chk (-v)).map (imin · 0)
+    -- Grid: round(d).max(0)  /  round(d.wrapping_neg()).wrapping_neg().min(0)
+    if d ≥ 0 then some (imax (HintMath.round d) 0)
+    else some (imin (wneg (HintMath.round (wneg d))) 0)
   else if mode = 2 then
     -- DoubleGrid: round_pad(d, 32)
     if d ≥ 0 then (roundPad d 32).map (imax · 0)
-    else (chk (-d)).bind fun nd => (roundPad nd 32).bind fun v => (chk (-v)).map (imin · 0)
+    else (roundPad (wneg d) 32).map fun v => imin (wneg v) 0
   else if mode = 3 then
     -- DownToGrid: floor
     if d ≥ 0 then some (imax (floor d) 0)
-    else (chk (-d)).bind fun nd => (chk (-(floor nd))).map (imin · 0)
+    else some (imin (wneg (floor (wneg d))) 0)
   else if mode = 4 then
     -- UpToGrid: ceil
-    if d ≥ 0 then (ceil d).map (imax · 0)
-    else (chk (-d)).bind fun nd => (ceil nd).bind fun v => (chk (-v)).map (imin · 0)
+    if d ≥ 0 then some (imax (ceil d) 0)
+    else some (imin (wneg (ceil (wneg d))) 0)
   else if mode = 6 then
     -- Super
     if d ≥ 0 then
-      -- ((distance + (threshold - phase)) & -period) + phase ; if val < 0 { phase }
-      (chk (thr - ph)).bind fun tp => (chk (d + tp)).bind fun s => (chk (-per)).bind fun np =>
-      (chk (landInt s np + ph)).map fun v => if v < 0 then ph else v
+      -- (distance.wrapping_add(threshold - phase) & -period).wrapping_add(phase); if val < 0 { phase }
+      (chk (thr - ph)).bind fun tp => (chk (-per)).map fun np =>
+      let v := wrapI32 (landInt (wrapI32 (d + tp)) np + ph)
+      if v < 0 then ph else v
     else
-      -- -(((threshold - phase) - distance) & -period) - phase ; if val > 0 { -phase }
-      (chk (thr - ph)).bind fun tp => (chk (tp - d)).bind fun s => (chk (-per)).bind fun np =>
-      (chk (-(landInt s np))).bind fun n => (chk (n - ph)).bind fun v =>
+      -- ((threshold - phase).wrapping_sub(distance) & -period).wrapping_neg().wrapping_sub(phase);
+      -- if val > 0 { -phase }
+      (chk (thr - ph)).bind fun tp => (chk (-per)).bind fun np =>
+      let v := wrapI32 (wneg (landInt (wrapI32 (tp - d)) np) - ph)
       if v > 0 then chk (-ph) else some v
   else if mode = 7 then
-    -- Super45: `/ period` panics on 0 and on MIN / -1
+    -- Super45: `/ period` panics on 0 and on MIN / -1, `* period` on overflow
     if d ≥ 0 then
-      (chk (thr - ph)).bind fun tp => (chk (d + tp)).bind fun s =>
-      (if per = 0 then none else chk (Int.tdiv s per)).bind fun q =>
-      (chk (q * per)).bind fun m => (chk (m + ph)).map fun v => if v < 0 then ph else v
+      (chk (thr - ph)).bind fun tp =>
+      (if per = 0 then none else chk (Int.tdiv (wrapI32 (d + tp)) per)).bind fun q =>
+      (chk (q * per)).map fun m =>
+      let v := wrapI32 (m + ph)
+      if v < 0 then ph else v
     else
-      (chk (thr - ph)).bind fun tp => (chk (tp - d)).bind fun s =>
-      (if per = 0 then none else chk (Int.tdiv s per)).bind fun q =>
-      (chk (q * per)).bind fun m => (chk (-m)).bind fun n => (chk (n - ph)).bind fun v =>
+      (chk (thr - ph)).bind fun tp =>
+      (if per = 0 then none else chk (Int.tdiv (wrapI32 (tp - d)) per)).bind fun q =>
+      (chk (q * per)).bind fun m =>
+      let v := wrapI32 (wneg m - ph)
       if v > 0 then chk (-ph) else some v
   else
     -- Off
     some d
 
-/-- `Engine::super_round(grid_period, selector)`: the new `(period, phase, threshold)`.
-The only call sites pass `grid_period ∈ {0x4000, 0x2D41}`, for which no `i32` operation can
-overflow (all intermediates are below 2^18); the model is the untrapped arithmetic. -/
-def superRound (gridPeriod selector : Int) : Int × Int × Int :=
+/-- `Engine::super_round(grid_period, selector)`: the new `(period, phase, threshold)`, `none` when a
+plain `i32` operation overflows (`grid_period * 2`, `period * 3`, `period - 1`,
+`((selector & 0x0F) - 4) * period`).  `/` truncates; `>> 8` is an arithmetic shift.  The `_` arms of
+the two `match`es are unreachable (`selector & 0xC0 ∈ {0, 0x40, 0x80, 0xC0}`).  The only call
+sites pass `grid_period ∈ {0x4000, 0x2D41}` (`op_sround`, `op_s45round`). -/
+def superRound (gridPeriod selector : Int) : Option (Int × Int × Int) :=
   let f76 := selector / 64 % 4
   let f54 := selector / 16 % 4
   let f30 := selector % 16
-  let period :=
-    if f76 = 0 then Int.tdiv gridPeriod 2
-    else if f76 = 1 then gridPeriod
-    else if f76 = 2 then gridPeriod * 2
-    else gridPeriod
-  let phase :=
-    if f54 = 0 then 0
-    else if f54 = 1 then Int.tdiv period 4
-    else if f54 = 2 then Int.tdiv period 2
-    else Int.tdiv (period * 3) 4
-  let threshold :=
-    if f30 = 0 then period - 1
-    else Int.tdiv ((f30 - 4) * period) 8
+  (if f76 = 0 then some (Int.tdiv gridPeriod 2)
+    else if f76 = 1 then some gridPeriod
+    else if f76 = 2 then chk (gridPeriod * 2)
+    else some gridPeriod).bind fun period =>
+  (if f54 = 0 then some 0
+    else if f54 = 1 then some (Int.tdiv period 4)
+    else if f54 = 2 then some (Int.tdiv period 2)
+    else (chk (period * 3)).map fun p3 => Int.tdiv p3 4).bind fun phase =>
+  (if f30 = 0 then chk (period - 1)
+    else (chk ((f30 - 4) * period)).map fun t => Int.tdiv t 8).map fun threshold =>
   (period / 256, phase / 256, threshold / 256)
 
 end FontVerif.HintRound
